@@ -3,9 +3,13 @@
      1 id s3 s2 s1 s0 codec w fail      Bind   (codec 255 = no codec matches)
      2 id                               Unbind
      3 s3 s2 s1 s0 pt hpad ppad nr rest.. np payload..   Write
+     4 0 | 4 1 s3 s2 s1 s0 pt hpad ppad nr rest.. np payload..   Write(bytes): pion/rtp's Unmarshal of the
+                                        buffer failed / gave this packet (run by the harness; the model's
+                                        abstract [unm] is instantiated with "decode this token")
    The observation is one byte string:
      1 pt|255        2 0|1
-     3 failed(0|1) n (w s3 s2 s1 s0 pt hpad nr rest.. np payload..)*n  caller-after(as in Write, without the tag) *)
+     3 failed(0|1) n (w s3 s2 s1 s0 pt hpad nr rest.. np payload..)*n  caller-after(as in Write, without the tag)
+     4 2 (unmarshal error) | 4 failed(0|1) n deliveries as for 3 *)
 From Coq Require Import String NArith ZArith Bool List.
 Import ListNotations.
 From Verif Require Import Common.V Common.Base Common.BytesUtil Model.StaticTrack.
@@ -43,9 +47,19 @@ Fixpoint dec_ops (fuel : nat) (l : list N) : option (list op) :=
                   | Some (p, t') => option_map (cons (Write p)) (dec_ops f t')
                   | None => None
                   end
+      | 4 :: 0 :: t => option_map (cons (WriteRaw [])) (dec_ops f t)
+      | 4 :: 1 :: t => match dec_pkt t with
+                       | Some (p, t') => option_map (cons (WriteRaw (firstn (length t - length t') t))) (dec_ops f t')
+                       | None => None
+                       end
       | _ => None
       end
   end.
+
+(* the unmarshaller of the correspondence run: a buffer stands for the packet
+   token the harness derived from it with pion/rtp's Unmarshal *)
+Definition unm_token (raw : list N) : option pkt :=
+  match dec_pkt raw with Some (p, []) => Some p | _ => None end.
 
 Definition enc_body (p : pkt) : list N :=
   [p_pt p; p_hpad p] ++ [N.of_nat (length (p_rest p))] ++ p_rest p
@@ -66,13 +80,16 @@ Definition enc_obs (o : obs) : list N :=
   | OUnbind _ => [2; 1]
   | OWrite errs ds after =>
       [3; (if errs =? 0 then 0 else 1); N.of_nat (length ds)] ++ flat_map enc_delivery ds ++ enc_caller after
+  | OWriteRaw (Ok (errs, ds)) =>
+      [4; (if errs =? 0 then 0 else 1); N.of_nat (length ds)] ++ flat_map enc_delivery ds
+  | OWriteRaw _ => [4; 2]
   end.
 
 Definition run (prog : list byte) : V :=
   match dec_ops (S (length prog)) (unbytes prog) with
   | None => VS "undecodable"
   | Some ops =>
-      match StaticTrack.run [] ops with
+      match StaticTrack.run unm_token [] ops with
       | Ok (_, obs) => VS (hex_encode (flat_map enc_obs obs))
       | Err e => VL [VS "err"; VS e]
       | Panic => VL [VS "panic"]
